@@ -1,4 +1,4 @@
-import PnVerif.Lemmas.HeaderLemmas
+import PnVerif.Lemmas.Encode
 /-
   C04 — any specification-valid classic file is read back exactly.
   Model: Model/Header.lean; independent decoder: Spec/SpecDecode.lean.
@@ -15,7 +15,100 @@ theorem encode_length (h : Hdr) (hn : NamesNoNul h) : (encodeRaw h).length = Hdr
     putAttrArray_length h.fmt h.gatts hn.2.1, putVarArray_length h.fmt h.vars hn.2.2]
   simp [magicBytes]
 
+/-- The result of ncmpio_hdr_get_NC does not depend on the read chunk size: for EVERY value of
+    ncp->chunk (the effective chunk is RNDUP(MAX(36, chunk), 4) as in the C) and EVERY byte string —
+    valid, corrupt or truncated — the chunked reader (window, slack move, zero fill on short read,
+    copy loops across chunk boundaries, padding refills) returns exactly what the reader with the
+    whole file in view returns: the same header and derived layout, or the same error code. -/
+theorem chunk_independent (c : Nat) (file : Bytes) : decodeChunked c file = decodeWhole file := by
+  unfold decodeChunked decodeWhole
+  have hc := chunkOf_ge c
+  have h0 := fetch_init file (chunkOf c) (zeros (chunkOf c))
+  rw [fetch_init_eq] at h0
+  simp only [fetch_init_eq]
+  simp only [take_ztake (show 12 ≤ chunkOf c by omega)]
+  cases hm : checkMagic (ztake 12 file) with
+  | error e => rfl
+  | ok f =>
+    simp only []
+    have h4 := (advance_inv (k := 4) h0 (by show 0 + 4 ≤ chunkOf c; omega)).2
+    have hsim := run_sim (file := file) (chunk := chunkOf c) (by omega) (getBody f) _ _ h4
+    simp only [Nat.zero_add] at hsim
+    revert hsim
+    generalize run (winR file (chunkOf c)) (getBody f) _ = x
+    generalize run flatR (getBody f) (List.drop 4 file) = y
+    intro hsim
+    match x, y, hsim with
+    | .ok (a, w), .ok (b, s), ⟨hab, _⟩ => subst hab; rfl
+    | .error e, .error f', hef => cases hef; rfl
+
+/-- The independent decoder (written from the format BNF only) recovers from the bytes the writer
+    produces exactly the header that was written — every field, in all three formats — and leaves
+    exactly the bytes that follow the header, for every header whose fields fit their widths
+    (`Encodable`): any names without NUL, any attribute type/length including 0, any
+    number/order of dimensions, attributes and variables, any vsize and begin values. -/
+theorem specDecode_encode (d : Schema) (rest : Bytes) (h : Encodable d) :
+    Spec.specDecode (encodeRaw d ++ rest) = some d := by
+  unfold Spec.specDecode
+  rw [header_put d rest h]; rfl
+
+/-- ANY byte string the specification decoder accepts is decoded by the library's reader to exactly
+    the specification's schema, provided only the library's own limits hold (names ≤ 256 bytes,
+    counts ≤ 2^31-1, one record dimension, dimension ids in range): the header part of
+    ncmpio_hdr_get_NC returns `d` itself, and the final result is the post-pass (shapes, lengths,
+    offset checks) applied to `d`.  Nothing is assumed about who wrote the file: gaps, stale or
+    saturated vsize, zero-length attributes, arbitrary padding content, arbitrary bytes after the
+    header are all covered. -/
+theorem decode_specvalid (b rest : Bytes) (d : Schema) (h : Spec.header b = some (d, rest)) (hl : Limits d) :
+    decodeWhole b = (match postPass d with
+      | .ok info => .ok (d, info)
+      | .error e => .error e) := by
+  obtain ⟨hm, hr⟩ := header_sim h hl
+  unfold decodeWhole
+  rw [hm]
+  simp only []
+  rw [hr]
+  simp only []
+  cases postPass d <;> rfl
+
+/-- the same through the chunked reader, for every chunk size -/
+theorem decodeChunked_specvalid (c : Nat) (b rest : Bytes) (d : Schema)
+    (h : Spec.header b = some (d, rest)) (hl : Limits d) :
+    decodeChunked c b = (match postPass d with
+      | .ok info => .ok (d, info)
+      | .error e => .error e) := by
+  rw [chunk_independent, decode_specvalid b rest d h hl]
+
+/-- the writer's own dialect is read back exactly, whatever follows the header -/
+theorem decode_encode (d : Schema) (rest : Bytes) (he : Encodable d) (hl : Limits d) :
+    decodeWhole (encodeRaw d ++ rest) = (match postPass d with
+      | .ok info => .ok (d, info)
+      | .error e => .error e) :=
+  decode_specvalid _ rest d (header_put d rest he) hl
+
+/-! non-vacuity: a CDF-1 header with a gap before the first variable, a stale vsize, a saturated
+    vsize, a zero-length attribute and a record variable meets every hypothesis above -/
+def exampleHdr : Schema :=
+  { fmt := .cdf1, numrecs := 2,
+    dims := [{ name := [0x74], size := 0 }, { name := [0x78], size := 3 }],
+    gatts := [{ name := [0x61], xtype := .double, nelems := 0, xvalue := [] },
+              { name := [0x62, 0x63], xtype := .short, nelems := 1, xvalue := [0, 7] }],
+    vars := [{ name := [0x76], dimids := [1], atts := [], xtype := .int, vsize := 4294967295, begin := 400 },
+             { name := [0x77], dimids := [0, 1], atts := [], xtype := .byte, vsize := 99, begin := 512 }] }
+
+example : Encodable exampleHdr := by
+  constructor <;> simp [exampleHdr, nnLim] <;>
+    (try (refine ⟨?_, ?_⟩)) <;> constructor <;> simp [NoNul, nnLim, rawLim, offLim, NcType.okFor, NcType.code, NcType.size]
+
+example : Limits exampleHdr := by
+  constructor <;> simp [exampleHdr, NC_MAX_DIMS, NC_MAX_ATTRS, NC_MAX_VARS, NC_MAX_INT, NC_MAX_NAME, AttLim] <;>
+    (try (refine ⟨?_, ?_⟩)) <;> constructor <;> simp [NC_MAX_NAME, NC_MAX_VAR_DIMS, NC_MAX_ATTRS, NC_MAX_INT]
+
+example : (postPass exampleHdr).toOption.map (fun i => (i.xsz, i.lens, i.recsize, i.beginVar, i.beginRec)) =
+    some (168, [12, 4], 3, 400, 512) := by decide
+
 def obligations : List String := [
-  "encode_length"
+  "encode_length", "chunk_independent", "specDecode_encode", "decode_specvalid", "decodeChunked_specvalid",
+  "decode_encode"
 ]
 end PnVerif.Props.C04
